@@ -308,7 +308,15 @@ int main(int argc, char **argv)
                         alarm(0);
                     },
                     scratch, 80);
-                if (!single.clean)
+                if (!single.clean && !single.sig && !single.timeout && single.code == 4)
+                {
+                    // exit code 4 is the choice oracle's own "replay divergence" abort (a deviation recorded in one run does not exist in the
+                    // next: the planner is not a function of the answer stream there): an internal limit of the exploration, reported as a
+                    // cap - never a finding of this property (hidden nondeterminism is C20's subject)
+                    rep.exhaustive = false;
+                    rep.caps.push_back("answer-stream replay diverged for " + planner + ": execution skipped (" + cur.substr(0, 120) + ")");
+                }
+                else if (!single.clean)
                     rep.fail(crashKey(planner, single), "solve()/teardown " + std::string(single.timeout || single.sig == SIGALRM ? "did not return within 60 s (10x the in-group limit)" : "crashed") + " (" + cfg.map + ", " + cfg.space + ")", cur);
                 else
                     rep.caps.push_back("non-reproducible child death in " + planner + " / " + cfg.map + " (signal " + std::to_string(out.sig) + ", timeout " + std::to_string(out.timeout) + ")");
